@@ -352,6 +352,14 @@ func corpus() []corpusEntry {
 				if _, isIRI := first.(string); isIRI && k == "object" && (b["type"] == "Delete" || b["type"] == "Like" || b["type"] == "Announce" || b["type"] == "Add" || b["type"] == "Remove") {
 					twin = M{"type": "Note", "id": id}
 				}
+				if fm, isM := first.(map[string]interface{}); isM && k == "object" && (b["type"] == "Update" || b["type"] == "Create") {
+					// these need the whole object: the twin is a second
+					// embedded value with the same id
+					var c M
+					mustRoundTrip(fm, &c)
+					c["summary"] = "the same object once more"
+					twin = c
+				}
 				out := append(A{}, vals...)
 				if len(vals) > 1 && g.Bool() {
 					out = append(out, twin) // another value in between
